@@ -84,7 +84,17 @@ type HoldsCustom struct {
 	N *int    `json:"n"`
 }
 
+// ErrLike is an ordinary JSON-marshalable value type that happens to have an
+// Error method: as a result type it is a Y, not the error position.
+type ErrLike struct {
+	Code int
+	Msg  string
+}
+
+func (e ErrLike) Error() string { return e.Msg }
+
 var named = map[string]reflect.Type{
+	"ErrLike":     reflect.TypeOf(ErrLike{}),
 	"EmbTagged":   reflect.TypeOf(EmbTagged{}),
 	"EmbUntagged": reflect.TypeOf(EmbUntagged{}),
 	"CustomU":     reflect.TypeOf(CustomU{}),
@@ -96,7 +106,7 @@ var named = map[string]reflect.Type{
 }
 
 // NamedNames lists the hand-declared types.
-var NamedNames = []string{"EmbTagged", "EmbUntagged", "CustomU", "TextU", "StrictV", "StrictP", "Omit", "HoldsCustom"}
+var NamedNames = []string{"ErrLike", "EmbTagged", "EmbUntagged", "CustomU", "TextU", "StrictV", "StrictP", "Omit", "HoldsCustom"}
 
 var (
 	ctxType = reflect.TypeOf((*context.Context)(nil)).Elem()
@@ -275,6 +285,8 @@ func GenJSON(t *rapid.T, d TypeDesc) string {
 		return GenJSON(t, *d.Elem)
 	case "named":
 		switch d.Name {
+		case "ErrLike":
+			return rapid.SampledFrom([]string{`{"Code":5,"Msg":"m"}`, `{"Code":1}`, `{}`}).Draw(t, "nv")
 		case "EmbTagged":
 			return rapid.SampledFrom([]string{`{"inner":{"x":3},"B":4}`, `{"B":1}`, `{}`}).Draw(t, "nv")
 		case "EmbUntagged":
